@@ -46,6 +46,19 @@ Inductive stmt :=
 | SUpdate (k : kind) (id : Z) (cols : list nat)
 | SDelete (k : kind) (id : Z).
 
+(* one component per class *)
+Record triple (X : Type) := { xE : X; xL : X; xN : X }.
+Arguments xE {X}. Arguments xL {X}. Arguments xN {X}.
+Definition tget {X} (k : kind) (t : triple X) : X := match k with Eager => xE t | Lazy => xL t | NoCV => xN t end.
+Definition tset {X} (k : kind) (x : X) (t : triple X) : triple X :=
+  match k with
+  | Eager => {| xE := x; xL := xL t; xN := xN t |}
+  | Lazy => {| xE := xE t; xL := x; xN := xN t |}
+  | NoCV => {| xE := xE t; xL := xL t; xN := x |}
+  end.
+Definition tlist {X} (t : triple X) : list X := [xE t; xL t; xN t].
+Definition tmap {X Y} (f : X -> Y) (t : triple X) : triple Y := {| xE := f (xE t); xL := f (xL t); xN := f (xN t) |}.
+
 (* ------------------------------------------------------------------ state *)
 Record table := { t_rows : list (Z * row); t_next : Z }.
 
@@ -71,8 +84,8 @@ Record pickled := { p_k : kind; p_id : Z; p_vals : list (option val) }.
 Record st := {
   heap : list inst;                  (* object reference = index *)
   slots : list (option nat);         (* references the application holds *)
-  tables : list table;               (* by kind_idx *)
-  caches : list cachef;              (* by kind_idx *)
+  tables : triple table;
+  caches : triple cachef;
   pickles : list pickled;
   log : list stmt;                   (* statements of the current operation, newest first *)
   fault : option nat                 (* fail the statement whose 0-based index in this operation is ... *)
@@ -81,8 +94,10 @@ Record st := {
 Definition empty_table := {| t_rows := []; t_next := 1 |}.
 Definition empty_cache := {| c_present := false; c_strong := []; c_weak := []; c_count := 0; c_offset := 0 |}.
 Definition init : st :=
-  {| heap := []; slots := []; tables := [empty_table; empty_table; empty_table];
-     caches := [empty_cache; empty_cache; empty_cache]; pickles := []; log := []; fault := None |}.
+  {| heap := []; slots := [];
+     tables := {| xE := empty_table; xL := empty_table; xN := empty_table |};
+     caches := {| xE := empty_cache; xL := empty_cache; xN := empty_cache |};
+     pickles := []; log := []; fault := None |}.
 
 (* ------------------------------------------------------------------ small list helpers *)
 Fixpoint set_nth {X} (n : nat) (x : X) (l : list X) : list X :=
@@ -131,8 +146,8 @@ Definition finally {A} (m : M A) (cleanup : st -> st) : M A :=
   fun s => match m s with (r, s') => (r, cleanup s') end.
 
 (* ------------------------------------------------------------------ state accessors *)
-Definition tbl (s : st) (k : kind) : table := nth (kind_idx k) (tables s) empty_table.
-Definition cch (s : st) (k : kind) : cachef := nth (kind_idx k) (caches s) empty_cache.
+Definition tbl (s : st) (k : kind) : table := tget k (tables s).
+Definition cch (s : st) (k : kind) : cachef := tget k (caches s).
 Definition with_tables (s : st) t := {| heap := heap s; slots := slots s; tables := t; caches := caches s; pickles := pickles s; log := log s; fault := fault s |}.
 Definition with_caches (s : st) c := {| heap := heap s; slots := slots s; tables := tables s; caches := c; pickles := pickles s; log := log s; fault := fault s |}.
 Definition with_heap (s : st) h := {| heap := h; slots := slots s; tables := tables s; caches := caches s; pickles := pickles s; log := log s; fault := fault s |}.
@@ -140,8 +155,8 @@ Definition with_slots (s : st) x := {| heap := heap s; slots := x; tables := tab
 Definition with_pickles (s : st) x := {| heap := heap s; slots := slots s; tables := tables s; caches := caches s; pickles := x; log := log s; fault := fault s |}.
 Definition with_log (s : st) x := {| heap := heap s; slots := slots s; tables := tables s; caches := caches s; pickles := pickles s; log := x; fault := fault s |}.
 Definition with_fault (s : st) x := {| heap := heap s; slots := slots s; tables := tables s; caches := caches s; pickles := pickles s; log := log s; fault := x |}.
-Definition set_tbl (k : kind) (t : table) : M unit := modify (fun s => with_tables s (set_nth (kind_idx k) t (tables s))).
-Definition set_cch (k : kind) (c : cachef) : M unit := modify (fun s => with_caches s (set_nth (kind_idx k) c (caches s))).
+Definition set_tbl (k : kind) (t : table) : M unit := modify (fun s => with_tables s (tset k t (tables s))).
+Definition set_cch (k : kind) (c : cachef) : M unit := modify (fun s => with_caches s (tset k c (caches s))).
 
 Definition blank_inst (k : kind) (id : Z) : inst :=
   {| i_k := k; i_id := id; i_vals := [None; None; None]; i_dirty := false; i_expired := false;
@@ -164,7 +179,7 @@ Definition i_with_id (i : inst) v := {| i_k := i_k i; i_id := v; i_vals := i_val
 Definition slot_refs (s : st) : list nat :=
   flat_map (fun x => match x with Some o => [o] | None => [] end) (slots s).
 Definition strong_refs (s : st) : list nat :=
-  flat_map (fun c => map snd (c_strong c)) (caches s).
+  flat_map (fun c => map snd (c_strong c)) (tlist (caches s)).
 (* alive = referenced by the application, a strong cache, or a frame of the running operation *)
 Definition alive (s : st) (roots : list nat) (o : nat) : bool :=
   mem_nat o roots || mem_nat o (slot_refs s) || mem_nat o (strong_refs s).
@@ -266,7 +281,7 @@ Definition cull (k : kind) (roots : list nat) : M unit :=
   let victims := pick_every frac (Z.to_nat (c_offset c)) (c_strong c) in
   let strong' := filter (fun e => negb (existsb (fun v => fst v =? fst e) victims)) (c_strong c) in
   (* an evicted object keeps a weak entry only if something else still references it *)
-  let s1 := with_caches s (set_nth (kind_idx k) (c_with c strong' weak1 (c_count c) (c_offset c)) (caches s)) in
+  let s1 := with_caches s (tset k (c_with c strong' weak1 (c_count c) (c_offset c)) (caches s)) in
   let weak2 := fold_left (fun w e => if alive s1 roots (snd e) then assoc_set (fst e) (snd e) w else w) victims weak1 in
   set_cch k (c_with c strong' weak2 (c_count c) ((c_offset c + 1) mod (cullFrac cfg))).
 
@@ -496,8 +511,8 @@ Definition so_create (k : kind) (kvs : list (nat * val)) : M nat :=
   | None => raise ETypeError
   | Some kw =>
       validate_all kw ;;;
-      o <- new_inst (blank_inst k 0) ;;
       id <- db_insert k (sorted_pending kw) ;;
+      o <- new_inst (blank_inst k 0) ;;
       (* an eager class deletes _SO_createValues in _SO_finishCreate; _init re-creates it *)
       upd_inst o (fun i => i_with_cv (i_with_id (fold_left (fun i cv => set_val (fst cv) (snd cv) i) kw i) id) (is_lazy k)) ;;;
       cache_created k id o ;;;
@@ -660,7 +675,7 @@ Fixpoint run_op (fuel : nat) (o : op) : M outv :=
   | OCull k => c <- gets (fun s => cch s k) ;; (if c_present c && doCache cfg then cull k [] else ret tt) ;;; ret RNone
   | OExpireAll k => so_expire_all k ;;; ret RNone
   | OClear =>
-      modify (fun s => with_caches s (map (fun c => c_with c [] [] (c_count c) (c_offset c)) (caches s))) ;;; ret RNone
+      modify (fun s => with_caches s (tmap (fun c => c_with c [] [] (c_count c) (c_offset c)) (caches s))) ;;; ret RNone
   | OPickle h => o <- handle h ;; p <- so_pickle o ;; ret (RIdx p)
   | OUnpickle p => hold_or_none (so_unpickle p)
   | ORawUpdate k id c v =>
